@@ -69,8 +69,10 @@ func ConcClassify(point string) string {
 
 // TearClassify additionally parks a writer between the content write and the sidecar write.
 func TearClassify(point string) string {
-	if point == "fs.add.content-written" || point == "fs.get.meta-read" {
-		// a writer between its two file writes, a reader between the sidecar and the content
+	if point == "fs.add.content-written" || point == "fs.get.meta-read" || point == "fs.getmeta.stat-done" {
+		// a writer between its two file writes, a reader between the sidecar and the content, any request
+		// that has just looked at an object's metadata (what it does next must not depend on the object
+		// still being that one)
 		return "mid"
 	}
 	return ConcClassify(point)
@@ -260,7 +262,8 @@ func GenTear(r *core.Rng) *ConcProgram {
 		if r.Chance(1, 2) {
 			p.Ops = append(p.Ops, &Op{Kind: "copy", B: concBucket, N: concNames[1], B2: concBucket, N2: concNames[0]})
 		} else {
-			p.Ops = append(p.Ops, &Op{Kind: "compose", B: concBucket, N: concNames[0], Srcs: []Src{{Name: concNames[1]}}, HasMeta: true, Meta: Meta{CT: "text/composed"}})
+			// (half of the time conditioned on the source's generation: then the bytes must be that generation's)
+			p.Ops = append(p.Ops, &Op{Kind: "compose", B: concBucket, N: concNames[0], Srcs: []Src{{Name: concNames[1], Cond: core.Pick(r, []string{"", "cur"})}}, HasMeta: true, Meta: Meta{CT: "text/composed"}})
 		}
 		if r.Chance(1, 2) {
 			p.Ops = append(p.Ops, &Op{Kind: "getmedia", B: concBucket, N: concNames[1]})
